@@ -78,6 +78,30 @@ def parse_raises(check: Check, repo: Repo, mr: MayRaise) -> None:
                 ok = f"parse_{v}" in methods
                 check.ob(rule, s, f"{tgt}[{k!r}] -> parse_{v}", ok, "method exists" if ok else f"Parser has no method parse_{v}: AttributeError instead of a syntax error")
     check.note(parser_table_entries=n_entries)
+    # the tables are partial: a token kind / keyword without an entry must end in a syntax error. Index reads
+    # of a table (`table[key]`, unlike table.get(key)) raise KeyError for such a token - end of input included
+    tables = {(s.targets[0].id if isinstance(s, ast.Assign) else s.target.id) for s in pc.body
+              if ((isinstance(s, ast.Assign) and len(s.targets) == 1 and isinstance(s.targets[0], ast.Name)) or
+                  (isinstance(s, ast.AnnAssign) and isinstance(s.target, ast.Name) and s.value is not None)) and isinstance(s.value, ast.Dict)}
+    from rules.bounds import covered_by_try
+    from rules.language_rules import norm_facts
+    from sa.cfg import CFG
+    from sa.guards import FactFlow
+
+    for m in [f for f in pc.body if isinstance(f, FuncDef)]:
+        subs = [x for x in walk_body(m) if isinstance(x, ast.Subscript) and isinstance(x.ctx, ast.Load) and isinstance(x.value, ast.Attribute)
+                and x.value.attr in tables and unparse(x.value.value) in ("self", "cls", "Parser")]
+        if not subs:
+            continue
+        flow = FactFlow(CFG(m))
+        for x in subs:
+            key, tb = unparse(x.slice), unparse(x.value)
+            facts = norm_facts(flow.facts_at(x))
+            ok = (f"{key} in {tb}", True) in facts or (f"{key} not in {tb}", False) in facts or covered_by_try(x, {"KeyError", "LookupError", "Exception"})
+            check.ob(rule, x, f"Parser.{m.name}: `{unparse(x)}`", ok,
+                     "the key is known to be in the table" if ok else
+                     f"index read of the partial table {tb}: a token without an entry (end of input, a stray punctuator) raises KeyError "
+                     "out of parse() instead of a GraphQLSyntaxError")
     check.floor(rule, 20, "entry-point exception classes + parser table entries")
 
 
